@@ -575,7 +575,7 @@ func Mutate(t *rapid.T, ns *models.Namespace, tag string) string {
 			"padding_short", "padding_begin_end", "type_unknown", "type_default", "row_limit_zero", "murmur_vbt", "murmur_seed", "hash_slice_bad",
 			// the location edits are the heart of the property: weight them
 			"loc_zero", "loc_negative", "loc_negative", "table_case_dup", "table_case_dup", "padding_short", "db_dup",
-			"db_overlap", "db_overlap", "db_overlap")
+			"db_overlap", "db_overlap", "db_overlap", "date_touch", "date_touch", "date_touch")
 	}
 	k := pick(t, tag+"_kind", kinds)
 	idx := func(n int, name string) int {
@@ -718,6 +718,39 @@ func Mutate(t *rapid.T, ns *models.Namespace, tag string) string {
 			rule.DateRange[1] = rule.DateRange[0]
 		} else if len(rule.DateRange) == 1 {
 			rule.DateRange[0] = rule.DateRange[0] + "-" + rule.DateRange[0]
+		}
+	case "date_touch":
+		// consecutive entries that share exactly their boundary period:
+		// ["201801-201806","201806-201812"], or a single period repeated as the next entry's start
+		var cands []*models.Shard
+		for _, r := range nonLinked {
+			if len(r.DateRange) >= 2 && (r.Type == models.ShardYear || r.Type == models.ShardMonth || r.Type == models.ShardDay) {
+				cands = append(cands, r)
+			}
+		}
+		if len(cands) > 0 {
+			rule = pick(t, tag+"_tr", cands)
+			i := 1 + idx(len(rule.DateRange)-1, "ti") // first pair, a middle pair or the last pair
+			bounds := func(e string) (string, string) {
+				p := strings.SplitN(e, "-", 2)
+				if len(p) == 1 {
+					return p[0], p[0]
+				}
+				if p[1] < p[0] {
+					return p[1], p[0]
+				}
+				return p[0], p[1]
+			}
+			_, prevEnd := bounds(rule.DateRange[i-1])
+			_, curEnd := bounds(rule.DateRange[i])
+			switch {
+			case curEnd > prevEnd && rapid.IntRange(0, 3).Draw(t, tag+"_tform") > 0:
+				rule.DateRange[i] = prevEnd + "-" + curEnd
+			case curEnd > prevEnd && rapid.Bool().Draw(t, tag+"_trev"):
+				rule.DateRange[i] = curEnd + "-" + prevEnd // written backwards, still starts at the shared period
+			default:
+				rule.DateRange[i] = prevEnd // the boundary period alone
+			}
 		}
 	case "date_descending":
 		if len(rule.DateRange) >= 2 {
